@@ -1,6 +1,7 @@
 """Development tool: apply a textual mutation to /repo, run checks, revert.  usage:
    mutate.py <relfile> <old> <new> <Cxx> [Cyy ...]     (old must occur exactly once unless prefixed by N: occurrence index)"""
 import subprocess, sys, os
+os.environ["VERIF_EVIDENCE_DIR"] = "/tmp/verif_dev_evidence"
 rel, old, new = sys.argv[1:4]
 checks = sys.argv[4:]
 p = os.path.join("/repo", rel)
